@@ -315,8 +315,11 @@ def render_flow(p):
             else:
                 s += "\t\t\tcff.Predicate(%s),\n" % w.arg(pfn)
         if u["fb"]:
+            # a fallback for a pointer, slice, map or interface value may be spelled as the literal nil
+            fbnil = u.get("fbnil") or [0] * len(u["outs"])
             s += "\t\t\tcff.FallbackWith(%s),\n" % ", ".join(
-                w.arg(tys[ty].mk("h.FBTok(%d, %d)" % (u["id"], i))) for i, ty in enumerate(u["outs"]))
+                (w.arg("nil", form="raw") if fbnil[i] else w.arg(tys[ty].mk("h.FBTok(%d, %d)" % (u["id"], i))))
+                for i, ty in enumerate(u["outs"]))
         if u["instr"]:
             s += "\t\t\tcff.Instrument(%s),\n" % w.arg('"u%d"' % u["id"])
         if u["invoke"]:
@@ -755,6 +758,10 @@ def gen_flow(rng, name, max_tasks=4, features=None, plain=False):
                         altspell={str(u["id"]): rng.random() < 0.5 for u in units}, uservars=rng.random() < 0.3,
                         latemut=rng.random() < 0.35,
                         emitshape=emitshape, emittree=emittree))
+    for u in units:
+        if u["kind"] == "task" and u["fb"]:
+            u["fbnil"] = [1 if p["style"]["tkind"][str(ty)] in ("ptr", "slice", "map", "any", "bytes") and rng.random() < 0.5 else 0
+                          for ty in u["outs"]]
     return p
 
 
